@@ -266,24 +266,28 @@ structure ND (α : Type) where
 /-- `InterpND::ndim` -/
 def ND.ndim (m : ND α) : Nat := if prod m.shape = 1 then 0 else m.shape.length
 
-/-- the three per-dimension loops of `InterpND::validate` -/
-def ndCheckNonEmpty (grid : List (List α)) : List Nat → Res Unit
-  | [] => .ok ()
-  | i :: is => (idx grid i).bind fun g => if g.isEmpty then .err .gridEmpty else ndCheckNonEmpty grid is
-def ndCheckSorted (grid : List (List α)) : List Nat → Res Unit
-  | [] => .ok ()
-  | i :: is => (idx grid i).bind fun g => if !strictlyIncreasing g then .err .notSorted else ndCheckSorted grid is
-def ndCheckShape (grid : List (List α)) (shape : List Nat) : List Nat → Res Unit
-  | [] => .ok ()
-  | i :: is => (idx grid i).bind fun g => (idx shape i).bind fun s =>
-      if g.length ≠ s then .err .shape else ndCheckShape grid shape is
+/-- the three per-dimension loops of `InterpND::validate` (`for i in 0..n`, indexing `self.grid[i]`;
+written as a recursion over the first `n` grids: a missing grid is the out-of-bounds panic) -/
+def ndCheckNonEmpty : Nat → List (List α) → Res Unit
+  | 0, _ => .ok ()
+  | _ + 1, [] => .panic .index
+  | k + 1, g :: gs => if g.isEmpty then .err .gridEmpty else ndCheckNonEmpty k gs
+def ndCheckSorted : Nat → List (List α) → Res Unit
+  | 0, _ => .ok ()
+  | _ + 1, [] => .panic .index
+  | k + 1, g :: gs => if !strictlyIncreasing g then .err .notSorted else ndCheckSorted k gs
+def ndCheckShape : Nat → List (List α) → List Nat → Res Unit
+  | 0, _, _ => .ok ()
+  | _ + 1, [], _ => .panic .index
+  | _ + 1, _ :: _, [] => .panic .index
+  | k + 1, g :: gs, s :: ss => if g.length ≠ s then .err .shape else ndCheckShape k gs ss
 
 /-- `InterpND::validate` -/
 def validateN (m : ND α) : Res Unit :=
   let n := m.ndim
-  (ndCheckNonEmpty m.grid (List.range n)).bind fun _ =>
-    (ndCheckSorted m.grid (List.range n)).bind fun _ =>
-      (ndCheckShape m.grid m.shape (List.range n)).bind fun _ =>
+  (ndCheckNonEmpty n m.grid).bind fun _ =>
+    (ndCheckSorted n m.grid).bind fun _ =>
+      (ndCheckShape n m.grid m.shape).bind fun _ =>
         (idx m.grid 0).bind fun g0 =>
           let gridLen := if g0.isEmpty then 0 else m.grid.length
           if gridLen ≠ n then .err .gridDim else .ok ()
@@ -293,18 +297,21 @@ inductive Plan (α : Type) where
   | fixed (pos : Nat)                    -- the point coincides with grid line `pos`: `index_axis_inplace`
   | free (g : List α) (p : Option α)     -- interpolate in this dimension
 
-/-- first loop (all dimensions; the code runs it from the last dimension down, which only matters
-for which of several identical panics fires) -/
-def ndPlan (grid : List (List α)) (pt : List α) : List Nat → Res (List (Plan α))
-  | [] => .ok []
-  | d :: ds =>
-    (idx grid d).bind fun g =>
-      (if g.isEmpty then (.ok (.free g none) : Res (Plan α))
-       else (idx pt d).bind fun p =>
+/-- first loop over the `n` dimensions (the code runs it from the last dimension down, which only
+matters for which of several identical panics fires): `grid[dim]`, and — only when that axis is not
+empty — `point[dim]` -/
+def ndPlan : Nat → List (List α) → List α → Res (List (Plan α))
+  | 0, _, _ => .ok []
+  | _ + 1, [], _ => .panic .index
+  | k + 1, g :: gs, pt =>
+    (if g.isEmpty then (.ok (.free g none) : Res (Plan α))
+     else match pt with
+       | [] => .panic .index
+       | p :: _ =>
          match position (fun v => eqv v p) g with
          | some pos => .ok (.fixed pos)
          | none => .ok (.free g (some p))).bind fun pl =>
-        (ndPlan grid pt ds).bind fun r => .ok (pl :: r)
+      (ndPlan k gs pt.tail).bind fun r => .ok (pl :: r)
 
 /-- a dimension after the second loop -/
 inductive Cell (α : Type) where
@@ -355,7 +362,7 @@ def ndFirstIndex : List (Plan α) → List Nat
 /-- `InterpND::linear` -/
 def linearN (m : ND α) (pt : List α) : Res α :=
   let n := m.shape.length
-  (ndPlan m.grid pt (List.range n)).bind fun plan =>
+  (ndPlan n m.grid pt).bind fun plan =>
     if ndViewLen plan m.shape = 1 then
       (match m.get (ndFirstIndex plan) with
        | .ok v => .ok v
@@ -392,11 +399,13 @@ def inAxis (g : List α) (p : α) : Res Bool :=
     | none => .panic .index
     | some hi => .ok (decide (lo ≤ p) && decide (p ≤ hi))
 
-def ndInGrid (grid : List (List α)) (pt : List α) : List Nat → Res Unit
-  | [] => .ok ()
-  | i :: is =>
-    (idx grid i).bind fun g => (idx pt i).bind fun p => (inAxis g p).bind fun b =>
-      if !b then .err .outside else ndInGrid grid pt is
+/-- the `for i in 0..n` loop of `validate_inputs` for N-D -/
+def ndInGrid : Nat → List (List α) → List α → Res Unit
+  | 0, _, _ => .ok ()
+  | _ + 1, [], _ => .panic .index
+  | _ + 1, _ :: _, [] => .panic .index
+  | k + 1, g :: gs, p :: ps =>
+    (inAxis g p).bind fun b => if !b then .err .outside else ndInGrid k gs ps
 
 /-- `Interpolator::validate_inputs` -/
 def Interpolator.validateInputs (it : Interpolator α) (pt : List α) : Res Unit :=
@@ -416,7 +425,7 @@ def Interpolator.validateInputs (it : Interpolator α) (pt : List α) : Res Unit
         (if !bx then (.ok false : Res Bool) else (idx pt 1).bind fun p1 => (inAxis y p1).bind fun byy =>
           if !byy then (.ok false : Res Bool) else (idx pt 2).bind fun p2 => inAxis z p2).bind fun b =>
           if !b then .err .outside else .ok ()
-    | .dn m => ndInGrid m.grid pt (List.range n)
+    | .dn m => ndInGrid n m.grid pt
 
 /-- `Interpolator::interpolate` -/
 def Interpolator.interpolate (it : Interpolator α) (pt : List α) (s : Strategy) : Res α :=
